@@ -1091,6 +1091,7 @@ def run(ctx):
     n = real_key_cases(ctx)
     import c15          # (lazy: c15 imports this module)
     ctx.notes.append("gssapi-with-mic on a real loopback server transport: %s" % c15.gss_mic_loopback(ctx))
+    ctx.notes.append("forged proofs against the real key classes on real server transports: %s" % c15.forged_proof_loopback(ctx))
     ctx.notes.append("dialogues with re-keys / repeated service requests on real transports: %s" % c15.dialogue_loopback(ctx))
     ctx.notes.append("real-key signature cases: %d; GssapiWithMicAuthHandler table entries are unbound functions: "
                      "%d dispatches needed an explicit self (the real Transport.run would raise TypeError there and "
@@ -1111,7 +1112,11 @@ def replay(ctx, rep):
             env["bits"] = bytes.fromhex(env["bits"]["hex"])
         steps.append((s["ptype"], bytes.fromhex(s["payload"]["hex"]), env, None, {}))
     with gss_patch(holder):
-        w = World(sid)
+        if case.get("real_key"):        # recorded against the real key classes (forged_proof_loopback)
+            import paramiko
+            w = World(sid, key_info=paramiko.Transport._key_info, preferred=paramiko.Transport._preferred_pubkeys)
+        else:
+            w = World(sid)
         holder["world"] = w
         succ = False
         last_cb = None
@@ -1124,6 +1129,10 @@ def replay(ctx, rep):
         if rep["key"] == "callback-skipped":
             if succ and not cbs:
                 ctx.fail(rep["key"], rep["what"], case=case, expected=rep.get("expected"), observed="SUCCESS without callback")
+            return
+        if rep["key"].startswith("partial-success-without-proof"):
+            if any(m[:1] == b"\x33" and m[-1:] == b"\x01" for m in sends(tr)):
+                ctx.fail(rep["key"], rep["what"], case=case, expected=rep.get("expected"), observed="partial_success=true")
             return
         # every other recorded failing input of this property is one that must NOT authenticate
         if succ and rep["key"] != "valid-gss-rejected" and rep["key"] != "valid-signature-rejected":
